@@ -118,14 +118,27 @@ Proof.
   intros H.
   assert (H0 : ip_wf (ip_set_csum h 0)) by (unfold ip_wf, ip_set_csum in *; cbn; tauto).
   pose proof (wsum_ip_ser (ip_set_csum h 0) H0 ltac:(cbn; lia)) as E0.
-  assert (Hb : ip_words (ip_set_csum h 0) < 4294901760).
-  { unfold ip_words, ip_set_csum, ip_wf in *. cbn. lia. }
-  eapply (csum_set_then_verify (ip_ser (ip_set_csum h 0))); [exact E0|exact Hb|].
-  unfold ip_calc_csum, ip_checksum. change csum_partial with wsum. rewrite E0.
-  rewrite wsum_ip_ser.
-  - unfold ip_words, ip_set_csum. cbn. lia.
-  - unfold ip_wf, ip_set_csum in *. cbn. tauto.
-  - cbn. apply csum_fold_lt. lia.
+  set (S0 := ip_words (ip_set_csum h 0)) in *.
+  assert (Hb : S0 < 4294901760).
+  { unfold S0, ip_words, ip_set_csum, ip_wf in *. cbn. lia. }
+  set (c := csum_fold (sumN' (map red [S0]))).
+  assert (Hc : Hdrs.ip_csum (ip_calc_csum h) = c).
+  { unfold ip_calc_csum, ip_checksum, c. cbn [Hdrs.ip_csum ip_set_csum]. rewrite csum_partial_red, E0.
+    cbn [map sumN']. rewrite N.add_0_r. reflexivity. }
+  assert (Hlt : c < 65536).
+  { unfold c. cbn [map sumN']. rewrite N.add_0_r. apply csum_fold_lt. pose proof (red_bound S0 ltac:(lia)). lia. }
+  assert (W : wsum (ip_ser (ip_calc_csum h)) = sumN' [S0] + c).
+  { rewrite wsum_ip_ser.
+    - unfold ip_words. rewrite Hc. unfold ip_calc_csum, ip_set_csum. cbn [ip_tot_len ip_id Hdrs.ip_frag ip_ttl ip_proto ip_src ip_dst].
+      cbn [sumN']. unfold S0, ip_words, ip_set_csum. cbn. lia.
+    - unfold ip_wf, ip_calc_csum, ip_set_csum in *. cbn. tauto.
+    - rewrite Hc. exact Hlt. }
+  destruct (csum_parts_verify [S0] (ip_ser (ip_calc_csum h))) as (V & _).
+  - constructor; [lia|constructor].
+  - cbn. lia.
+  - exact W.
+  - rewrite W. cbn [sumN']. lia.
+  - exact V.
 Qed.
 
 Lemma rd_be16 x : x < 65536 -> (x / 256) mod 256 * 256 + x mod 256 = x.
